@@ -134,7 +134,7 @@ Section AnyIdsRun.
     let res := f_flush fk id (arrange (nth_order os 0) (map fst st)) st in
     strict_prefixes (Fl2 fk last (Some (mkRec k0 id dbs'))) (snd res) W.
   Proof.
-    intros I. destruct (flagged_flush_inv fk st sp W last id os k0 I) as [_ Eo]. cbn zeta in *.
+    intros I. destruct (flagged_flush_inv fk st sp W last id os k0 I) as [_ [Eo _]]. cbn zeta in *.
     rewrite Eo. pose proof I as [A B C R D Cl Q].
     set (ns := arrange (nth_order os 0) (map fst st)).
     assert (ND : NoDup ns) by (apply arrange_nodup; auto).
@@ -153,54 +153,136 @@ Section AnyIdsRun.
     - right. split; auto.
   Qed.
 
-  Lemma extend_safe_weak log ops recs recs' :
-    (forall j, safe fk recs (max j (length log)) (crash log j)) ->
-    (forall rc, In rc recs -> In rc recs') ->
-    strict_prefixes (fun w => safe fk recs' (length (log ++ ops)) w) ops (apply_dops log []) ->
-    (forall k, (length (log ++ ops) <= k)%nat -> safe fk recs' k (apply_dops (log ++ ops) [])) ->
-    forall j, safe fk recs' (max j (length (log ++ ops))) (crash (log ++ ops) j).
+  (* the order-free property with an arbitrary admissibility predicate on the record *)
+  Definition safeG (recs : list flush_rec) (ok : flush_rec -> Prop) (w : world) : Prop :=
+    (forall n c, wget n w = Some c -> dget fk c = None -> db_empty c) /\
+    (forall m, (exists n c, wget n w = Some c) ->
+               (forall n c, wget n w = Some c -> dget fk c = Some m) -> is_dirty m = false ->
+       exists rc, In rc recs /\ ok rc /\ m = mark_of CLEAN (r_id rc) /\
+         forall n c, wget n w = Some c ->
+           match wget n (r_snap rc) with Some s => db_eq c s | None => db_empty c end).
+
+  Lemma safeG_consistent recs k w l :
+    safeG recs (rec_at recs k) w -> lists_world l w -> crash_consistent_ip fk recs k w l.
   Proof.
-    intros H0 Hsub Hs Hf j. unfold crash.
-    destruct (le_lt_dec j (length log)) as [Hj|Hj].
-    - rewrite firstn_app_le; auto. eapply safe_mono; [exact Hsub| |apply H0].
-      rewrite app_length. lia.
-    - rewrite firstn_app_ge by lia. rewrite apply_dops_app.
-      destruct (le_lt_dec (length ops) (j - length log)) as [Hk|Hk].
-      + rewrite firstn_all2 by lia. rewrite <- apply_dops_app. apply Hf. lia.
-      + pose proof (strict_prefixes_firstn _ _ _ _ Hs Hk) as X. cbv beta in X.
-        eapply safe_mono; [intros rc H; exact H| |exact X]. lia.
+    intros [S1 S2] L. unfold crash_consistent_ip.
+    destruct (check_synced fk l) as [[m|]| | |] eqn:E; auto.
+    - destruct (check_ok_some fk l m E) as [Hne B].
+      apply S2.
+      + destruct l as [|[n c] t]; [contradiction|]. exists n, c. apply L. left; auto.
+      + intros n c G. apply L in G. apply (B _ _ G).
+      + destruct l as [|[n c] t]; [contradiction|]. apply (B n c (or_introl eq_refl)).
+    - intros n c G. apply (S1 _ _ G). eapply check_ok_none; [exact E|]. apply L; exact G.
+  Qed.
+
+  Lemma safe_safeG recs k w : safe fk recs k w -> safeG recs (rec_at recs k) w.
+  Proof.
+    intros [S1 S2]. split; auto. intros m He Ha Hd.
+    destruct (S2 m He Ha Hd) as [rc [A [B [C D]]]]. exists rc. repeat split; auto. left; auto.
+  Qed.
+
+  Lemma safeG_of_agrees recs (ok : flush_rec -> Prop) w rc :
+    In rc recs -> ok rc -> agrees fk (Some rc) w -> safeG recs ok w.
+  Proof.
+    intros Hin Hok Ha. split.
+    - intros n c G E. destruct (Ha _ _ G) as [H|[rc' [s [_ [M _]]]]]; auto. congruence.
+    - intros m [n [c G]] Hall Hd.
+      destruct (Ha _ _ G) as [H|[rc' [s [Eo [M [Gs Es]]]]]].
+      + pose proof (Hall _ _ G) as X. rewrite (H fk) in X. discriminate.
+      + inversion Eo; subst rc'. exists rc. repeat split; auto.
+        * rewrite (Hall _ _ G) in M. inversion M; auto.
+        * intros n' c' G'. destruct (Ha _ _ G') as [H|[rc' [s' [Eo' [M' [Gs' Es']]]]]].
+          -- pose proof (Hall _ _ G') as X. rewrite (H fk) in X. discriminate.
+          -- inversion Eo'; subst rc'. rewrite Gs'. exact Es'.
+  Qed.
+
+  (* admissible records stay admissible when a record that completes later is appended *)
+  Lemma rec_at_mono recs rc' k rc :
+    (forall r, In r recs -> (r_pos r <= r_pos rc')%nat) -> In rc recs ->
+    rec_at recs k rc -> rec_at (recs ++ [rc']) k rc.
+  Proof.
+    intros Hp Hin [H|[H1 H2]]; [left; auto|right]. split; auto.
+    intros r Hr Hk. apply in_app_iff in Hr. destruct Hr as [Hr|[<-|[]]]; auto.
+  Qed.
+
+  Lemma safeG_mono recs recs' k w :
+    (forall rc, In rc recs -> In rc recs' /\ (rec_at recs k rc -> rec_at recs' k rc)) ->
+    safeG recs (rec_at recs k) w -> safeG recs' (rec_at recs' k) w.
+  Proof.
+    intros H [S1 S2]. split; auto. intros m He Ha Hd.
+    destruct (S2 m He Ha Hd) as [rc [A [B [C D]]]]. destruct (H _ A) as [A' B'].
+    exists rc. repeat split; auto.
   Qed.
 
   Definition frun_inv_w (s : frun_state) (last : option flush_rec) : Prop :=
     flag_inv fk (fr_st s) (fr_spec s) (apply_dops (fr_log s) []) last /\
     (forall rc, last = Some rc -> In rc (fr_recs s)) /\
     (forall rc, In rc (fr_recs s) -> (r_pos rc <= length (fr_log s))%nat) /\
-    (forall j, safe fk (fr_recs s) (max j (length (fr_log s))) (crash (fr_log s) j)).
+    (forall j, safeG (fr_recs s) (rec_at (fr_recs s) j) (crash (fr_log s) j)) /\
+    (forall rc, In rc (fr_recs s) -> agrees_all fk rc (crash (fr_log s) (r_pos rc))).
 
   Lemma frun_inv_w_init : frun_inv_w frun_init None.
   Proof.
     destruct (frun_inv_init fk) as [A [B [C D]]]. split; [exact A|]. split; [exact B|]. split; [exact C|].
-    intros j. cbn. rewrite Nat.max_0_r. apply D.
+    split; [|intros rc []]. intros j. apply safe_safeG. apply D.
   Qed.
 
-  Lemma frun_extend_w s last st' sp' ops recs' last' cur :
+  (* appending the operations of one user operation; [cur] = the record appended by it, if any *)
+  Lemma frun_extend_w s last st' sp' ops last' cur :
     frun_inv_w s last ->
     flag_inv fk st' sp' (apply_dops ops (apply_dops (fr_log s) [])) last' ->
     strict_prefixes (Fl2 fk last cur) ops (apply_dops (fr_log s) []) ->
-    (forall rc, In rc (fr_recs s) -> In rc recs') ->
-    (forall rc, cur = Some rc -> In rc recs') ->
+    let recs' := match cur with Some rc => fr_recs s ++ [rc] | None => fr_recs s end in
+    (forall rc, cur = Some rc -> r_pos rc = length (fr_log s ++ ops) /\
+                                 agrees_all fk rc (apply_dops ops (apply_dops (fr_log s) []))) ->
     (forall rc, last' = Some rc -> In rc recs') ->
-    (forall rc, In rc recs' -> (r_pos rc <= length (fr_log s ++ ops))%nat) ->
     frun_inv_w (mkFRun st' sp' (fr_log s ++ ops) recs') last'.
   Proof.
-    intros [I [Hl [Hp Hs]]] I' Hst Hsub Hc Hl' Hp'. unfold frun_inv_w; cbn [fr_st fr_spec fr_log fr_recs].
-    split; [rewrite apply_dops_app; exact I'|]. split; [exact Hl'|]. split; [exact Hp'|].
-    apply extend_safe_weak with (recs := fr_recs s); auto.
-    - eapply strict_prefixes_impl; [|exact Hst]. intros w Hw.
-      apply (Fl2_safe fk recs' _ last cur w); auto.
-      all: intros rc E; split; [|apply Hp']; auto.
-    - intros k Hk. apply (Fl_safe fk recs' k last'); [|apply Pid_Fl; eapply inv_Pid; rewrite apply_dops_app; eauto].
-      intros rc E. split; [apply Hl'; auto|]. specialize (Hp' _ (Hl' _ E)). lia.
+    intros [I [Hl [Hp [Hs Hlive]]]] I' Hst recs' Hc Hl'.
+    assert (Hsub : forall rc, In rc (fr_recs s) -> In rc recs').
+    { intros rc H. unfold recs'. destruct cur; auto. apply in_app_iff; auto. }
+    assert (Hp' : forall rc, In rc recs' -> (r_pos rc <= length (fr_log s ++ ops))%nat).
+    { intros rc H. unfold recs' in H. rewrite app_length. destruct cur as [rc0|].
+      - apply in_app_iff in H. destruct H as [H|[<-|[]]]; [specialize (Hp _ H); lia|].
+        destruct (Hc rc0 eq_refl) as [E _]. rewrite E, app_length. lia.
+      - specialize (Hp _ H). lia. }
+    assert (Hmono : forall k rc, In rc (fr_recs s) -> rec_at (fr_recs s) k rc -> rec_at recs' k rc).
+    { intros k rc Hin Hr. unfold recs'. destruct cur as [rc0|]; auto.
+      apply rec_at_mono; auto. intros r Hr'. destruct (Hc rc0 eq_refl) as [E _].
+      rewrite E, app_length. specialize (Hp _ Hr'). lia. }
+    unfold frun_inv_w; cbn [fr_st fr_spec fr_log fr_recs].
+    split; [rewrite apply_dops_app; exact I'|]. split; [exact Hl'|]. split; [exact Hp'|]. split.
+    - intros j. unfold crash.
+      destruct (le_lt_dec j (length (fr_log s))) as [Hj|Hj].
+      + rewrite firstn_app_le; auto. apply (safeG_mono (fr_recs s)); [|apply Hs].
+        intros rc Hin. split; auto.
+      + rewrite firstn_app_ge by lia. rewrite apply_dops_app.
+        destruct (le_lt_dec (length ops) (j - length (fr_log s))) as [Hk|Hk].
+        * rewrite firstn_all2 by lia. apply safe_safeG.
+          apply (Fl_safe fk recs' j last'); [|apply Pid_Fl; eapply inv_Pid; eauto].
+          intros rc E. split; [apply Hl'; auto|]. specialize (Hp' _ (Hl' _ E)). rewrite app_length in Hp'. lia.
+        * pose proof (strict_prefixes_firstn _ _ _ _ Hst Hk) as [Nm X].
+          assert (Hlast : forall rc, last = Some rc -> In rc recs' /\ (r_pos rc <= j)%nat).
+          { intros rc E. split; [apply Hsub, Hl; auto|]. specialize (Hp _ (Hl _ E)). lia. }
+          destruct X as [X|[X|[X|X]]].
+          -- apply safe_safeG. apply (safe_of_agrees fk recs' j _ last Hlast X).
+          -- apply safe_safeG. apply safe_of_dirty; auto.
+          -- apply safe_safeG. destruct X as [n1 [c1 [n2 [c2 [G1 [G2 Hne]]]]]].
+             apply (safe_of_mixed fk recs' j _ n1 c1 n2 c2 Nm G1 G2 Hne).
+          -- destruct cur as [rc0|].
+             ++ apply (safeG_of_agrees recs' _ _ rc0); auto.
+                ** unfold recs'. apply in_app_iff; right; left; auto.
+                ** destruct (Hc rc0 eq_refl) as [E _]. right. rewrite E, app_length. split; [lia|].
+                   intros r Hr Hjr. unfold recs' in Hr. apply in_app_iff in Hr.
+                   destruct Hr as [Hr|[<-|[]]]; [specialize (Hp _ Hr); lia|]. rewrite E, app_length. lia.
+             ++ (* agrees None: every database is empty *)
+                apply safe_safeG. apply (safe_of_agrees fk recs' j _ None); auto.
+                intros rc E; discriminate.
+    - intros rc Hin. unfold recs' in Hin. destruct cur as [rc0|].
+      + apply in_app_iff in Hin. destruct Hin as [Hin|[<-|[]]].
+        * rewrite crash_app_le; auto.
+        * destruct (Hc rc0 eq_refl) as [E Ag]. rewrite E, crash_all, apply_dops_app. exact Ag.
+      + rewrite crash_app_le; auto.
   Qed.
 
   (* the non-flush operations: new invariant and every strict prefix in Fl *)
@@ -247,35 +329,30 @@ Section AnyIdsRun.
   Lemma frun_step_w s last o :
     frun_inv_w s last -> hop_avoids fk o = true -> exists last', frun_inv_w (frun_step fk s o) last'.
   Proof.
-    intros Inv Ha. pose proof Inv as [I [Hl [Hp Hs]]].
+    intros Inv Ha. pose proof Inv as [I [Hl [Hp [Hs Hlive]]]].
     destruct (match o with HFlush _ _ => true | _ => false end) eqn:Ef.
     - destruct o as [| | | | | |id os]; try discriminate.
       unfold frun_step. cbn [flagged_step spec_step].
       set (res := f_flush fk id (arrange (nth_order os 0) (map fst (fr_st s))) (fr_st s)).
       set (log' := fr_log s ++ snd res).
-      destruct (flagged_flush_inv fk _ _ _ last id os (length log') I) as [I' _].
+      destruct (flagged_flush_inv fk _ _ _ last id os (length log') I) as [I' [_ Ag]].
       pose proof (flagged_flush_weak _ _ _ last id os (length log') I) as Hst.
-      cbn zeta in I', Hst. fold res in I', Hst.
+      cbn zeta in I', Hst, Ag. fold res in I', Hst, Ag.
       set (rc' := mkRec (length log') id
                     (with_marks fk id (remove_all (sp_doomed (fr_spec s)) (sp_dbs (fr_spec s))))) in *.
       exists (Some rc').
       destruct res as [st' ops] eqn:Er. cbn [fst snd] in *.
-      apply (frun_extend_w s last st' _ ops _ (Some rc') (Some rc')); auto.
-      + intros rc Hr. apply in_app_iff; auto.
+      apply (frun_extend_w s last st' _ ops (Some rc') (Some rc')); auto.
+      + intros rc E. inversion E; subst. split; auto.
       + intros rc E. inversion E; subst. apply in_app_iff; right; left; auto.
-      + intros rc E. inversion E; subst. apply in_app_iff; right; left; auto.
-      + intros rc Hr. apply in_app_iff in Hr. destruct Hr as [Hr|[<-|[]]].
-        * specialize (Hp _ Hr). rewrite app_length. lia.
-        * cbn. unfold log'. lia.
     - destruct (fstep_quiet _ _ _ last o I Ha) as [I' [Hst Esn]].
       { intros id os ->. discriminate. }
       exists last. unfold frun_step.
       destruct (flagged_step fk (fr_st s) o) as [st' ops]. destruct (spec_step fk true (fr_spec s) o) as [sp' snap].
       cbn [fst snd] in *. subst snap.
-      apply (frun_extend_w s last st' sp' ops (fr_recs s) last None); auto.
+      apply (frun_extend_w s last st' sp' ops last None); auto.
       + eapply strict_prefixes_impl; [apply Fl_Fl2|exact Hst].
       + intros rc E; discriminate.
-      + intros rc Hr. rewrite app_length. specialize (Hp _ Hr). lia.
   Qed.
 
   Lemma frun_all_w h : forall s last,
@@ -290,10 +367,18 @@ Section AnyIdsRun.
   Theorem flagged_crash_consistent_any_ids h k l :
     history_avoids fk h = true ->
     lists_world l (crash (fr_log (run_flagged fk h)) k) ->
-    crash_consistent fk (fr_recs (run_flagged fk h)) (max k (length (fr_log (run_flagged fk h))))
-                     (crash (fr_log (run_flagged fk h)) k) l.
+    crash_consistent_ip fk (fr_recs (run_flagged fk h)) k (crash (fr_log (run_flagged fk h)) k) l.
   Proof.
-    intros Ha L. destruct (frun_all_w h frun_init None frun_inv_w_init Ha) as [last [_ [_ [_ Hs]]]].
-    apply safe_consistent; auto.
+    intros Ha L. destruct (frun_all_w h frun_init None frun_inv_w_init Ha) as [last [_ [_ [_ [Hs _]]]]].
+    apply safeG_consistent; auto.
+  Qed.
+
+  Theorem flagged_flush_reported h rc l :
+    history_avoids fk h = true -> In rc (fr_recs (run_flagged fk h)) ->
+    lists_world l (crash (fr_log (run_flagged fk h)) (r_pos rc)) -> l <> [] ->
+    check_synced fk l = COk (Some (mark_of CLEAN (r_id rc))).
+  Proof.
+    intros Ha Hr L Hne. destruct (frun_all_w h frun_init None frun_inv_w_init Ha) as [last [_ [_ [_ [_ Hl]]]]].
+    eapply agrees_all_verdict; eauto.
   Qed.
 End AnyIdsRun.
